@@ -577,7 +577,7 @@ func (s *sim) quiescent(final bool) {
 			continue
 		}
 		st := po.t.State()
-		if po.kind == "recv" && st == kern.BlockedCond {
+		if po.kind == "recv" && (st == kern.BlockedCond || st == kern.BlockedSelect || st == kern.BlockedReal || st == kern.BlockedSleep) {
 			switch {
 			case s.created > 0:
 				s.vio("C12", "recv-lost-wakeup", "", "RecvMsg still waits although the underlying stream exists")
